@@ -264,6 +264,18 @@ def check_reject(case):
         tb = mk_tb("TbBus", ports=1, width=2)
     elif kind == "no-port":
         tb = mk_tb("Tb0", ports=0)
+    elif kind in ("scalar+bundle-port", "bundle-port-only", "scalar+bundle-port,elaborated", "generator-two-ports"):
+        # ports that only exist after elaboration (a bundle port flattens to several scalar ports)
+        tb = mk_tb("TbBun" + str(len(kind)), ports=0 if kind == "bundle-port-only" else 1)
+        tb.dd = h.Diff(port=True)
+        tb.r3 = h.R(r=3)(p=tb.dd.p, n=tb.dd.n)
+        if kind.endswith("elaborated"):
+            h.elaborate(tb)
+        if kind == "generator-two-ports":
+            @h.generator
+            def TbGen(_: h.HasNoParams) -> h.Module:
+                return mk_tb("TbG", ports=2)
+            tb = TbGen()
     else:
         tb = h.R(r=1)
     try:
@@ -296,8 +308,11 @@ def run(ctx):
                          "Decimal, numeric string and Prefixed forms; every exported field compared with the original "
                          "(floats with the nearest float of the exact value); distinct = distinct seed; all non-trivial",
                     bound="<=6 attributes, nesting <=2", key_of=repr)
-    ctx.run_bounded("testbench-interface", [("reject", k) for k in ("two-ports", "bus-port", "no-port", "primitive")],
-                    check_reject, rule="testbenches without exactly one scalar port are rejected", bound="4 programs",
+    ctx.run_bounded("testbench-interface", [("reject", k) for k in ("two-ports", "bus-port", "no-port", "primitive", "scalar+bundle-port",
+                                                                   "bundle-port-only", "scalar+bundle-port,elaborated",
+                                                                   "generator-two-ports")],
+                    check_reject, rule="testbenches without exactly one scalar port are rejected, also when the extra "
+                                       "ports only appear through elaboration (bundle ports)", bound="8 programs",
                     key_of=repr)
     return INFO
 
